@@ -12,6 +12,7 @@
 package mcpx
 
 import (
+	"slices"
 	"bufio"
 	"context"
 	"encoding/json"
@@ -41,8 +42,10 @@ type c06Msg struct {
 }
 
 type c06Spec struct {
-	Transport string   `json:"transport"` // stdio | http-stateless
+	Transport string   `json:"transport"` // stdio | http-stateless | http-stateful
 	Msgs      []c06Msg `json:"msgs"`
+	Headers   []string `json:"headers,omitempty"`     // http-stateful: Mcp-Protocol-Version per message ("" = absent)
+	Established bool   `json:"established,omitempty"` // http-stateful: a legacy session is initialized first and its id sent along
 }
 
 var c06Supported = []string{"2026-07-28", "2025-11-25", "2025-06-18", "2025-03-26", "2024-11-05"}
@@ -57,6 +60,8 @@ func c06Meta(kind string) string {
 		return `{"io.modelcontextprotocol/protocolVersion":"2026-07-28","io.modelcontextprotocol/clientInfo":{"name":"m","version":"1"}}`
 	case "badcaps":
 		return `{"io.modelcontextprotocol/protocolVersion":"2026-07-28","io.modelcontextprotocol/clientCapabilities":"yes"}`
+	case "nullcaps":
+		return `{"io.modelcontextprotocol/protocolVersion":"2026-07-28","io.modelcontextprotocol/clientCapabilities":null,"io.modelcontextprotocol/clientInfo":{"name":"m","version":"1"}}`
 	case "badinfo":
 		return `{"io.modelcontextprotocol/protocolVersion":"2026-07-28","io.modelcontextprotocol/clientCapabilities":{},"io.modelcontextprotocol/clientInfo":17}`
 	case "badver":
@@ -112,7 +117,7 @@ var c06Features = []struct{ method, params string }{
 
 func (g *c06Gen) next(httpOnly bool) c06Msg {
 	r := g.r
-	metas := []string{"full", "full", "noinfo", "nocaps", "badcaps", "badinfo", "badver"}
+	metas := []string{"full", "full", "noinfo", "nocaps", "badcaps", "nullcaps", "badinfo", "badver"}
 	if httpOnly {
 		// sessionless HTTP: only requests that carry the per-request metadata
 		f := c06Features[r.Intn(len(c06Features))]
@@ -172,6 +177,16 @@ func genC06(r *vh.Rand) c06Spec {
 		s.Transport = "http-stateless"
 	}
 	g := &c06Gen{r: r}
+	if r.Chance(1, 7) {
+		// a stateful endpoint cannot serve 2026-07-28: metadata-carrying requests, whatever the header says
+		s.Transport = "http-stateful"
+		s.Established = r.Bool()
+		for i, k := 0, r.Range(2, 6); i < k; i++ {
+			s.Msgs = append(s.Msgs, g.next(true))
+			s.Headers = append(s.Headers, r.Choose("", "", "2025-06-18", "2025-11-25", "2026-07-28"))
+		}
+		return s
+	}
 	for i, k := 0, r.Range(3, 10); i < k; i++ {
 		s.Msgs = append(s.Msgs, g.next(s.Transport == "http-stateless"))
 	}
@@ -298,7 +313,7 @@ func runC06(c *vh.Case, spec c06Spec) {
 		if newProto {
 			expectCode := 0
 			switch m.Meta {
-			case "badinfo", "nocaps", "badcaps":
+			case "badinfo", "nocaps", "badcaps", "nullcaps":
 				expectCode = -32602
 			case "badver":
 				expectCode = -32022
@@ -502,6 +517,108 @@ func runC06(c *vh.Case, spec c06Spec) {
 		ss.Wait()
 		sw.Close()
 		<-done
+	} else if spec.Transport == "http-stateful" {
+		h := mcp.NewStreamableHTTPHandler(func(*http.Request) *mcp.Server { return server }, nil)
+		ip := &vhm.InProc{Handler: h, AsyncDelete: true}
+		base := map[string]string{"Content-Type": "application/json", "Accept": "application/json, text/event-stream"}
+		sid := ""
+		if spec.Established {
+			st, rh, _, err := ip.Do(ctx, "POST", "http://example.test/mcp", base, []byte(`{"jsonrpc":"2.0","id":"i","method":"initialize","params":{"protocolVersion":"2025-06-18","capabilities":{},"clientInfo":{"name":"legacy","version":"1"}}}`))
+			if err != nil || st != 200 || rh.Get("Mcp-Session-Id") == "" {
+				c.Inconclusive("stateful initialize: status %d err %v", st, err)
+				return
+			}
+			sid = rh.Get("Mcp-Session-Id")
+			hdr := map[string]string{"Mcp-Session-Id": sid, "Mcp-Protocol-Version": "2025-06-18"}
+			for k, v := range base {
+				hdr[k] = v
+			}
+			ip.Do(ctx, "POST", "http://example.test/mcp", hdr, []byte(`{"jsonrpc":"2.0","method":"notifications/initialized"}`))
+			takeReached()
+		}
+		for i, m := range spec.Msgs {
+			hdr := map[string]string{"Mcp-Method": m.Method}
+			for k, v := range base {
+				hdr[k] = v
+			}
+			if spec.Headers[i] != "" {
+				hdr["Mcp-Protocol-Version"] = spec.Headers[i]
+			}
+			if sid != "" {
+				hdr["Mcp-Session-Id"] = sid
+			}
+			switch m.Method {
+			case "tools/call":
+				hdr["Mcp-Name"] = "echo"
+			case "prompts/get":
+				hdr["Mcp-Name"] = "p"
+			case "resources/read":
+				hdr["Mcp-Name"] = "file:///r"
+			}
+			st, rh, body, err := ip.Do(ctx, "POST", "http://example.test/mcp", hdr, []byte(m.Raw))
+			if err != nil {
+				c.Violate("http-transport-error", "message %d: %v", i, err)
+				break
+			}
+			var rep c06Reply
+			switch {
+			case strings.HasPrefix(rh.Get("Content-Type"), "text/event-stream"):
+				for _, e := range vhm.ParseSSEBytes(body) {
+					if _, r := parseC06Reply([]byte(e.Data)); r.Seen {
+						rep = r
+					}
+				}
+			case strings.HasPrefix(rh.Get("Content-Type"), "application/json"):
+				_, rep = parseC06Reply(body)
+			}
+			got := takeReached()
+			log.Add("msg", "i", i, "sym", m.Sym, "meta", m.Meta, "header", spec.Headers[i], "ok", rep.OK, "code", rep.Code, "status", st)
+			sig.WriteString(m.Sym + "/" + m.Meta + "/" + spec.Headers[i] + ";")
+			rejects++
+			if st >= 500 {
+				c.Violate("http-5xx", "message %d %s answered HTTP %d", i, m.Raw, st)
+				break
+			}
+			if m.Sym == "discover" {
+				continue // exempt: a client learns the supported versions from its result (or from the error)
+			}
+			// every other request carrying 2026-07-28 metadata is a request for a protocol this endpoint does not serve
+			reachedThis := false
+			for _, g := range got {
+				if g == m.Method {
+					reachedThis = true
+				}
+			}
+			if reachedThis || rep.OK {
+				c.Violate("new-protocol-served-by-stateful-endpoint", "message %d %s (header Mcp-Protocol-Version=%q, established=%v) was served (reached handler=%v, reply %+v): a stateful endpoint does not support 2026-07-28 and must answer -32022 (or -32602 for incomplete metadata)", i, m.Raw, spec.Headers[i], spec.Established, reachedThis, rep)
+				break
+			}
+			incomplete := m.Meta == "nocaps" || m.Meta == "badcaps" || m.Meta == "nullcaps" || m.Meta == "badinfo"
+			if rep.Seen && !(rep.Code == -32022 || (incomplete && rep.Code == -32602) || (removed[m.Method] && rep.Code == -32601)) {
+				c.Violate("wrong-metadata-rejection", "message %d %s on a stateful endpoint (header %q): expected -32022 (or -32602 for incomplete metadata), got %+v", i, m.Raw, spec.Headers[i], rep)
+				break
+			}
+			if rep.Code == -32022 {
+				var d struct {
+					Supported []string `json:"supported"`
+				}
+				json.Unmarshal([]byte(rep.Data), &d)
+				okList := len(d.Supported) > 0
+				for _, v := range d.Supported {
+					if !slices.Contains(c06Supported, v) || v >= "2026-07-28" {
+						okList = false
+					}
+				}
+				if !okList {
+					c.Violate("unsupported-version-without-list", "message %d: -32022 from a stateful endpoint must list the (legacy) versions it supports, data was %s", i, rep.Data)
+					break
+				}
+			}
+		}
+		ip.Wait()
+		for ss := range server.Sessions() {
+			ss.Close()
+		}
 	} else {
 		h := mcp.NewStreamableHTTPHandler(func(*http.Request) *mcp.Server { return server }, &mcp.StreamableHTTPOptions{Stateless: true})
 		ip := &vhm.InProc{Handler: h}
